@@ -100,7 +100,7 @@ def monC02d (o : Obs) : Bool := (unconsumed o.s'.active o.V').isEmpty
 def newUnconsumed (o : Obs) : List Key :=
   (unconsumed o.s'.active o.V').filter fun k => !(unconsumed o.s.active o.V).contains k
 
-/-- signature of known finding D5: the step fired a key-producing mapping while another press had left
+/-- signature of the FORMER known finding D5 (fixed by b2bd6eb; kept as a record, no monitor consults it): the step fired a key-producing mapping while another press had left
 absorbed keys, and every newly unconsumed key was handed back to pass-through during this step (by
 `release_absorbed_keys` inside `add_new_mapping`, after the consumption step had already run) -/
 def sigD5 (o : Obs) : Bool :=
@@ -112,8 +112,7 @@ def sigD5 (o : Obs) : Bool :=
 
 /-- tag of a C02(d) violation introduced by this step, if any -/
 def monC02dTag (o : Obs) : Option String :=
-  if (newUnconsumed o).isEmpty then none
-  else if sigD5 o then some "C02:D5" else some "C02:d"
+  if (newUnconsumed o).isEmpty then none else some "C02:d"
 
 def Repeat.isNormal : Repeat → Bool
   | Repeat.normal => true
@@ -321,7 +320,7 @@ def c08iii (o : Obs) (ob : Obl) : Bool := o.fired == some ob.m
 
 /-- signature of former finding D6 (FIXED: `add_new_mapping` now runs `release_absorbed_keys` also when the firing
 mapping is absorbing without being key-producing; the monitor no longer consults this signature, the definition is
-kept for its other users) (`absorbing_trigger` is one global slot): the violating press is of the
+kept as a record; nothing uses it any more) (`absorbing_trigger` is one global slot): the violating press is of the
 LATEST absorbing trigger — which exempts EVERY absorbed key — and either the obligation was created by
 a different trigger, or some other key that is still absorbed and held was absorbed by a different
 firing than the obligation's -/
@@ -331,7 +330,7 @@ def sigD6 (o : Obs) (ob : Obl) : Bool :=
    (o.s.absorbed.filter fun M2 => M2 != o.e.key && o.s.inp.contains M2).any fun M2 => !ob.m.absorbing.contains M2)
 
 /-- signature of known finding D7 (FIXED: `add_new_mapping` now tests `produces_action_key`; the monitor no
-longer consults this signature, the definition is kept for its other users): the step fires a mapping whose
+longer consults this signature, the definition is kept as a record; nothing uses it any more): the step fires a mapping whose
 output ends in a modifier but contains a non-modifier key (before the fix it was treated as a
 modifier-remapping and skipped `release_absorbed_keys`) -/
 def sigD7 (o : Obs) : Bool :=
